@@ -94,8 +94,10 @@ class Gen:
         s = ""
         for _ in range(n):
             c = r.random()
-            if c < 0.8:
+            if c < 0.75:
                 s += r.choice("abcXYZ 019_+-*/(){};.,")
+            elif c < 0.8:
+                s += r.choice("\x80\xa9\xe9\xfe\xff")       # bytes 0x80..0xFF (the text is encoded as latin-1)
             elif c < 0.9:
                 s += "\\" + r.choice("\"\\nt")
             else:
@@ -173,7 +175,7 @@ class Gen:
         switch wants (an identifier followed by an operator, a literal, '!' ...)"""
         r = self.rng
         e = self.expr(0)
-        if statement_start and r.random() < self.quirk_aware:
+        if statement_start and r.random() < 0.3:
             # an expression statement is recognised when it starts with ID followed by an operator / '(' / ';'
             # or with a token that is not an identifier, a primitive type, '{', fact, goal, return
             for _ in range(20):
@@ -288,9 +290,9 @@ class Gen:
         self.count(self.decls, "method")
         r = self.rng
         k = r.random()
-        if k < 0.5:
+        if k < 0.4:
             rt = ["void"]
-        elif k < 0.9 or r.random() < self.quirk_aware:
+        elif k < 0.7:
             rt = self.qid()
         else:
             rt = [r.choice(PRIMS)]
@@ -323,8 +325,7 @@ class Gen:
         r = self.rng
         if r.random() < 0.5:
             return [r.choice(PRIMS)] + self.declarators() + [";"]
-        # a field with a class type: the parser's look-ahead only accepts a single declarator here
-        return self.qid() + self.declarators(1 if r.random() < self.quirk_aware else 3) + [";"]
+        return self.qid() + self.declarators() + [";"]
 
     def klass(self, depth=0):
         self.count(self.decls, "class")
@@ -418,7 +419,7 @@ def render(rng, toks, plain=False):
             elif k < 0.93:
                 sep = "\r\n"
             elif k < 0.96:
-                sep = " /* " + rng.choice(["c", "a + b", "*", "**", "x /* y", "\n"]) + " */ "
+                sep = " /* " + rng.choice(["c", "a + b", "*", "**", "x /* y", "\n", "\xff", "\x80\xe9"]) + " */ "
             elif k < 0.99:
                 sep = " // " + rng.choice(["c", "a + b;", "*/", ""]) + "\n"
             else:
@@ -450,7 +451,7 @@ def random_token(rng):
         return rng.choice(IDS)
     if k < 0.97:
         return rng.choice(["1", "2.5", '"s"', "true"])
-    return rng.choice(["$", "#", "@", '"open', "/* open", "1.2.3", "99999999999999999999"])
+    return rng.choice(["$", "#", "@", '"open', "/* open", "1.2.3", "99999999999999999999", "\xff", "\x80", "\xe9", "a\xffb", '"\xff"', "/* \xff */"])
 
 
 def mutate(rng, toks):
@@ -516,6 +517,15 @@ CORPUS = [
     "a = 1; $", "a = 1 $", "a $", "$", "a = \"abc", "a = /* x", "a = 1; // c", "a = 1.2.3;", "a = 99999999999999999999;",
     "(a) $", "x = (a) $", "x = (a. $", "x = (a $", "class A { a $", "class A { a. $", "class A { a b $", "class A { real $", "a. $", "a.b c $", "a b( $",
     "", ";", "}", ")", "or", "this.x = x;", "this;", "\xff a = 1;", "a = 1;\xff b = 2;",
+    # forms accepted since the fixes of the C16 findings
+    "real f() { return 1.0; }", "int f(int a, A b) { return a; } bool g() { } tp h() { } string s() { }", "real f;", "real f = 1, g;",
+    "real f(", "real f)", "real f (a);", "real (f)();", "real $", "real f $", "real f( $", "int", "int f", "bool b() { } b();",
+    "class A { real f() { return 1.0; } int g(real x) { } string s; bool b() { } tp t = 1, u; }", "class A { real f( }", "class A { real f() }",
+    "class A { A a, b; A.B c = 1, d, e = 2; }", "class A { A a, b c; }", "class A { A a,; }", "class A { a.b c, d; a.b e(); }",
+    "(a + b) == c;", "-a == b;", "+a == b;", "new A();", "\"s\" == s;", "(a) b;", "(a.b) c == d; (x);", "( $", "- $", "new $", "\"s\" $",
+    "A a, 3;", "A a, b = 1, c;", "A.B a = 1, ;", "A a, real;",
+    "s = \"\xff\x80\xe9\";", "a = 1; \x80 b = 2;", "a\xe9 = 1;", "\xe9 = 1;", "a = 1; // \xff\n b = 2;", "a = /* \xff */ 1;", "a = \"\\\xff\";",
+    "a = \"abc\xff", "a = /* \xff",
 ]
 
 
